@@ -252,6 +252,55 @@ pub fn run(rep: &'static Report) {
             }
         }
     }
+    // "no file is ever produced under keys derivable from public data": with the payload key and ephemeral key left
+    // to the implementation, a reader that holds NO private key tries every secret it can form from public data
+    for (si, ri) in [(0usize, 2usize), (1, 3), (0, 0)] {
+        for l in [0usize, 13, 70000] {
+            rep.eval(1);
+            let pl = plaintext(seed ^ 0x5b, l);
+            let enc = Subject::KeyEnc { s: hx(&k[si].sk), s_pub: hx(&k[si].pk), r_pub: hx(&k[ri].pk), e: String::new(), payload: String::new() };
+            let (eres, file) = run_plain(&enc, &pl);
+            let case = json!({"kind":"public-data","s":si,"r":ri,"len":l});
+            if !eres.is_ok() || file.len() < 132 {
+                rep.violation("public/encrypt-error", case, format!("key_encrypt failed: {}", eres.brief()));
+                continue;
+            }
+            // the honest recipient (REF) tells us the handshake hash and the payload key actually used
+            let kf = match r::read_key_file(&k[ri].sk, &file) {
+                Ok(kf) => kf,
+                Err(e) => {
+                    rep.violation("public/not-conforming", case, format!("REF cannot read the file: {:?}", e));
+                    continue;
+                }
+            };
+            let x = r::noise_x_read(&r::KEY_MAGIC, &k[ri].sk, &k[ri].pk, &file[4..132]).unwrap();
+            let mut nine = [0u8; 32];
+            nine[0] = 9;
+            let public: Vec<(&str, Vec<u8>)> = vec![
+                ("all-zero", vec![0u8; 32]),
+                ("all-ones", vec![0xff; 32]),
+                ("sender public key", k[si].pk.to_vec()),
+                ("recipient public key", k[ri].pk.to_vec()),
+                ("ephemeral public key", file[4..36].to_vec()),
+                ("handshake hash", x.h.to_vec()),
+                ("format magic padded", [r::KEY_MAGIC.to_vec(), vec![0u8; 28]].concat()),
+                ("base point", nine.to_vec()),
+                ("sha256(ephemeral public key)", r::sha256(&file[4..36]).to_vec()),
+            ];
+            for (name, cand) in &public {
+                let fk = r::file_key_from_handshake(cand, &x.h);
+                if kf.payload_key[..] == cand[..] || r::read_chunks(&fk, &[], &file[132..], 65536).is_ok() || r::read_chunks(cand.as_slice().try_into().unwrap(), &[], &file[132..], 65536).is_ok() {
+                    rep.violation(
+                        "public/file-key-derivable-from-public-data",
+                        case.clone(),
+                        format!("a file produced by key_encrypt (randomness left to the implementation) can be read without any private key: its payload/file key is derivable from public data ({})", name),
+                    );
+                    break;
+                }
+            }
+            rep.nontrivial(format!("public-{}-{}-{}", si, ri, l).as_bytes());
+        }
+    }
     rep.extra("special_points", json!(sp.len()));
     rep.extra("small_order_encodings", json!(small));
     rep.sample(json!({"kind":"special-recipient","name":"small-order-5-bit255","expect":"key_encrypt returns Err and writes nothing"}));
